@@ -27,6 +27,8 @@ if ROUND == '12':
     MAP = {'A': 'U', 'B': 'V'}
 if ROUND == '13':
     MAP = {'A': 'W', 'B': 'X'}
+if ROUND == '14':
+    MAP = {'A': 'Y', 'B': 'Z'}
 for p in sys.argv[1:]:
     notes=open('/tmp/wt/%s/seeded/NOTES.md'%p).read()
     unconfirmed = []
